@@ -3,7 +3,7 @@ import runner, parsefam
 
 def main(tier, seed, t0, only=None):
     import re
-    J = parsefam.jobs('C01', 1, tier, want=('free', 'ws', 'str', 'nest'))
+    J = parsefam.jobs('C01', 1, tier, want=('free', 'ws', 'ws2', 'str', 'nest'))
     if only: J = [j for j in J if re.search(only, j.name)]
     res = runner.run_jobs(J)
     return runner.finish('C01', tier, seed, res, 'model_checking',
